@@ -6,7 +6,7 @@ import sys
 import time
 
 VERIF = os.path.dirname(os.path.dirname(os.path.abspath(__file__)))
-PROPS_WITH_M = {"C07", "C11", "C12", "C13", "C17", "C09", "C06", "C08", "C10", "C15", "C04", "C20", "C03", "C05", "C19", "C02", "C14", "C18", "C16"}
+PROPS_WITH_M = {"C01", "C07", "C11", "C12", "C13", "C17", "C09", "C06", "C08", "C10", "C15", "C04", "C20", "C03", "C05", "C19", "C02", "C14", "C18", "C16"}
 
 
 def obligations_for(prop, tier, only):
